@@ -24,6 +24,7 @@ static unsigned long ALLOC_REQUESTS; /* measured by the last run */
 #define VBASE 1000000
 
 static struct universe U;
+static void post_exchange_probe(struct sim *s);
 
 struct scen {
 	struct simcfg cfg;
@@ -37,6 +38,7 @@ struct scen {
 	struct simcfg cfg2;
 	bool final_convergence;
 	bool callbacks;
+	bool probe;
 	int announce_cap;
 };
 
@@ -162,6 +164,8 @@ static int run_scen(struct scen *sc, uint64_t seed, struct sim *keep)
 		}
 		sim_wait_parked(s);
 	}
+	if (sc->probe)
+		post_exchange_probe(s);
 	if (sc->final_convergence && !s->spin_reported)
 		sim_final_convergence_check(s);
 	cblog_check_against_tables(s, "end-of-scenario");
@@ -203,6 +207,64 @@ out:
 	}
 	sim_free(s);
 	return 0;
+}
+
+/* ------------------------------------------------------------------ C04: outcome digest and post-exchange probing */
+static uint64_t LAST_OUTCOME;
+static unsigned long LAST_RECORDS;
+
+struct probe_ctx {
+	struct sim *s;
+	uint64_t h;
+	unsigned long n;
+};
+
+static void probe_cb(const struct pfx_record *rec, void *d)
+{
+	struct probe_ctx *c = d;
+	enum pfxv_state st;
+	struct pfx_record *reason = NULL;
+	unsigned int rl = 0;
+	int full = rec->prefix.ver == LRTR_IPV4 ? 32 : 128;
+	uint8_t qlen = rec->min_len > full ? (uint8_t)full : rec->min_len;
+	struct prec p;
+
+	prec_from_record(rec, &p);
+	c->h += hbytes(rec->socket == c->s->sock ? 1 : 2, &p, sizeof(p)); /* order independent */
+	c->n++;
+	/* hostile prefix lengths only bite when the table is searched: query what was stored */
+	pfx_table_validate_r(c->s->pfxt, &reason, &rl, rec->asn, &rec->prefix, qlen, &st);
+	c->h += hmix((uint64_t)st, rl);
+	lrtr_free(reason);
+	pfx_table_validate(c->s->pfxt, rec->asn ^ 1, &rec->prefix, (uint8_t)full, &st);
+}
+
+/* NB: the enumeration callback runs under the table's read lock; validation takes the read lock again,
+ * which POSIX allows for rwlocks and glibc grants as long as no writer waits (single thread here). */
+static void post_exchange_probe(struct sim *s)
+{
+	struct probe_ctx c = {s, 0, 0};
+	static struct pfx_record recs[4096];
+	(void)recs;
+
+	MON_PAUSE();
+	pfx_table_for_each_ipv4_record(s->pfxt, probe_cb, &c);
+	pfx_table_for_each_ipv6_record(s->pfxt, probe_cb, &c);
+	for (int i = 0; i < N_SKI; i++) {
+		struct spki_record *res = NULL;
+		unsigned int n = 0;
+
+		if (spki_table_search_by_ski(s->spkit, s->u->skis[i], &res, &n) == SPKI_SUCCESS) {
+			for (unsigned int j = 0; j < n; j++)
+				c.h += hbytes(3, res[j].spki, SPKI_SIZE) + res[j].asn;
+			c.n += n;
+			lrtr_free(res);
+		}
+	}
+	MON_RESUME();
+	LAST_RECORDS = c.n;
+	LAST_OUTCOME = hmix(hmix(s->sent_hash, s->trace_hash), hmix(c.h, (uint64_t)s->sock->state * 7 + s->sock->serial_number));
+	CNT("c04/post_exchange_probes");
 }
 
 /* ------------------------------------------------------------------ scenario families */
@@ -420,10 +482,17 @@ static void gen_version(struct scen *sc, struct rng *r, long c)
 	case 4: { /* Error Report code 4 with assorted version bytes at assorted queries */
 		int q = (int)rndn(r, 3);
 
+		if (rndp(r, 1, 2)) {
+			/* ... also after a legitimate downgrade: the version must never go up again */
+			sc->cache_version = 0;
+			sc->v0_mode = (int)rndn(r, 2);
+			q = 1 + (int)rndn(r, 3);
+		}
+
 		sc->cfg.xplan[q].override = AO_ERR_REPORT;
 		sc->cfg.xplan[q].param = 4;
 		sc->cfg.xplan[q].ver_byte = VB[rndn(r, 6)];
-		sc->cfg.xplan[0].pos = sc->cfg.xplan[1].pos = sc->cfg.xplan[2].pos = -1;
+		sc->cfg.xplan[0].pos = sc->cfg.xplan[1].pos = sc->cfg.xplan[2].pos = sc->cfg.xplan[3].pos = -1;
 		sc->cfg.nxplan = q + 1;
 		break;
 	}
@@ -573,6 +642,207 @@ static void gen_allocsync(struct scen *sc, struct rng *r, long c, uint64_t seed)
 	cnt_max("max:c18/sync/allocations_in_base_conversation", n);
 }
 
+/* ------------------------------------------------------------------ C04: byte-stream fuzzing */
+static void fz_w32(uint8_t *o, uint32_t v)
+{
+	o[0] = v >> 24;
+	o[1] = v >> 16;
+	o[2] = v >> 8;
+	o[3] = v;
+}
+
+static const uint32_t FZ_LEN[] = {0, 1, 7, 8, 9, 12, 20, 24, 32, 3247, 3248, 3249, 65535, 65536, 0x7fffffffu, 0x80000000u, 0xffffffffu};
+static const uint8_t FZ_BYTE[] = {0, 1, 2, 31, 32, 33, 127, 128, 129, 254, 255};
+
+/* structure-aware stream: a valid response over the universe, then mutations */
+static size_t fuzz_rawgen(struct sim *s, uint8_t *out, size_t cap, uint64_t fseed, int where)
+{
+	struct rng r;
+	size_t n = 0, off[600];
+	int npdu = 0;
+	int av = s->mv;
+	int kind;
+
+	r.s = fseed ^ ((uint64_t)(where + 2) * 0x9e3779b97f4a7c15ULL);
+	kind = (int)rndn(&r, 100);
+	if (kind < 8) {
+		/* pure random bytes */
+		n = 1 + rndn(&r, 400);
+		for (size_t i = 0; i < n; i++)
+			out[i] = (uint8_t)rnd32(&r);
+		if (rndp(&r, 1, 2) && n >= 8) {
+			out[0] = (uint8_t)av; /* make the header plausible so that parsing goes deeper */
+			out[1] = (uint8_t)rndn(&r, 12);
+			fz_w32(out + 4, FZ_LEN[rndn(&r, 17)]);
+		}
+		return n;
+	}
+	/* a well-formed answer */
+	off[npdu++] = n;
+	if (where >= 0) {
+		n += pdu_cache_response(out + n, av, s->cache.session);
+	} else {
+		n += pdu_notify(out + n, av, s->cache.session, s->cache.serial + 1);
+	}
+	int nd = (int)rndn(&r, 24);
+
+	for (int i = 0; i < nd && n + 200 < cap && npdu < 590; i++) {
+		off[npdu++] = n;
+		if (av == 1 && rndp(&r, 1, 5))
+			n += pdu_key(out + n, av, &s->u->k[rndn(&r, (uint32_t)s->u->nk)], 1);
+		else
+			n += pdu_prefix(out + n, av, &s->u->p[rndn(&r, (uint32_t)s->u->np)], (uint8_t)(rndp(&r, 4, 5) ? 1 : 0));
+	}
+	if (rndp(&r, 1, 12)) {
+		off[npdu++] = n;
+		n += pdu_error(out + n, av, (uint16_t)rndn(&r, 10), out, 8, "fuzz");
+	}
+	off[npdu++] = n;
+	n += pdu_eod(out + n, av, s->cache.session, s->cache.serial + 1, 3600, 600, 7200);
+	off[npdu] = n;
+	/* mutations */
+	int nmut = kind < 20 ? 0 : 1 + (int)rndn(&r, 3);
+
+	for (int m = 0; m < nmut; m++) {
+		int pi = (int)rndn(&r, (uint32_t)npdu);
+		uint8_t *p = out + off[pi];
+		size_t plen = off[pi + 1] - off[pi];
+
+		switch (rndn(&r, 10)) {
+		case 0: /* length field */
+			fz_w32(p + 4, rndp(&r, 2, 3) ? FZ_LEN[rndn(&r, 17)] : (uint32_t)plen + rndn(&r, 9) - 4);
+			break;
+		case 1: /* type */
+			p[1] = rndp(&r, 1, 2) ? (uint8_t)rndn(&r, 13) : (uint8_t)rnd32(&r);
+			break;
+		case 2: /* version */
+			p[0] = FZ_BYTE[rndn(&r, 11)];
+			break;
+		case 3: /* flags / prefix length / max length / zero byte of a prefix PDU, flags of a key PDU */
+			if (plen >= 12)
+				p[8 + rndn(&r, 4)] = FZ_BYTE[rndn(&r, 11)];
+			if (rndp(&r, 1, 3))
+				p[2 + rndn(&r, 2)] = FZ_BYTE[rndn(&r, 11)];
+			break;
+		case 4: /* any payload byte */
+			if (plen > 8)
+				p[8 + rndn(&r, (uint32_t)plen - 8)] = (uint8_t)rnd32(&r);
+			break;
+		case 5: /* nested lengths of an Error Report */
+			if (p[1] == 10 && plen >= 16) {
+				fz_w32(p + 8, rndp(&r, 1, 2) ? FZ_LEN[rndn(&r, 17)] : rndn(&r, 64));
+				if (rndp(&r, 1, 2))
+					fz_w32(p + plen - 8, FZ_LEN[rndn(&r, 17)]);
+			} else {
+				fz_w32(p + 4, FZ_LEN[rndn(&r, 17)]);
+			}
+			break;
+		case 6: /* session id / reserved */
+			p[2] = (uint8_t)rnd32(&r);
+			p[3] = (uint8_t)rnd32(&r);
+			break;
+		case 7: { /* duplicate a PDU at the end of the data section */
+			if (n + plen < cap && npdu < 598) {
+				memmove(out + off[npdu - 1] + plen, out + off[npdu - 1], n - off[npdu - 1]);
+				memcpy(out + off[npdu - 1], p, plen);
+				n += plen;
+				/* offsets after the insertion are stale: stop mutating */
+				m = nmut;
+			}
+			break;
+		}
+		case 8: /* truncate the stream */
+			n = off[pi] + rndn(&r, (uint32_t)plen + 1);
+			m = nmut;
+			break;
+		default: /* 32-bit field at a 4-byte boundary */
+			if (plen >= 12)
+				fz_w32(p + 8 + 4 * rndn(&r, (uint32_t)(plen - 8) / 4), rndp(&r, 1, 2) ? FZ_LEN[rndn(&r, 17)] : rnd32(&r));
+			break;
+		}
+	}
+	return n;
+}
+
+static void gen_fuzz(struct scen *sc, struct rng *r, long c, uint64_t seed)
+{
+	scen_defaults(sc, r);
+	sc->np = 32;
+	sc->nk = 8;
+	sc->init_records = 10;
+	sc->cfg.refresh = 3600;
+	sc->cfg.retry = 600;
+	sc->cfg.expire = 7200;
+	sc->cfg.iv_mode = (int)rndn(r, 4);
+	sc->cfg.chunk_tx = CH_MAX;
+	sc->cfg.rawgen = fuzz_rawgen;
+	sc->cfg.fuzz_seed = mix64(seed ^ 0xf022, (uint64_t)c);
+	sc->cfg.raw_close_after = rndp(r, 1, 3);
+	sc->cache_version = rndp(r, 1, 6) ? 0 : 1;
+	sc->v0_mode = 0;
+	int shape = (int)(c % 4);
+
+	if (shape == 0) {
+		/* the very first answer is the fuzzed stream (rtr_sync on an empty socket) */
+		sc->cfg.xplan[0].override = AO_RAW;
+		sc->cfg.nxplan = 1;
+	} else if (shape <= 2) {
+		/* genuine first synchronisation, then a fuzzed answer to the Serial Query */
+		sc->cfg.xplan[0].pos = -1;
+		sc->cfg.xplan[1].override = AO_RAW;
+		sc->cfg.nxplan = 2;
+		add_event(&sc->cfg, 10, 1, 3);
+	} else {
+		/* fuzzed bytes arrive while the client idles in rtr_wait_for_sync */
+		sc->cfg.xplan[0].pos = -1;
+		sc->cfg.nxplan = 1;
+		add_event(&sc->cfg, 100 + rndn(r, 3000), 7, 0);
+	}
+	sc->cfg.c08_mode = false;
+	sc->cfg.horizon = 3600 * 2 + 700; /* one more poll after the fuzzed exchange */
+	sc->final_convergence = false;
+	sc->probe = true;
+	sc->callbacks = rndp(r, 1, 2);
+}
+
+static const char *CHN[] = {"max", "one-byte", "random", "header-split"};
+
+static void run_fuzz_case(struct rng *r, long c, uint64_t seed)
+{
+	static struct scen sc;
+	uint64_t ref = 0;
+	unsigned long refn = 0;
+	static const int CHS[] = {CH_MAX, CH_ONE, CH_RANDOM, CH_HEADER_SPLIT};
+
+	gen_fuzz(&sc, r, c, seed);
+	for (int i = 0; i < 4; i++) {
+		struct scen one = sc;
+
+		one.cfg.chunk_rx = CHS[i];
+		if (i > 0) {
+			/* the repeated runs only compare outcomes: their monitor verdicts would be duplicates */
+			VO.muted = true;
+		}
+		run_scen(&one, mix64(seed, (uint64_t)c), NULL);
+		VO.muted = false;
+		CNT("c04/streams_x_chunkings");
+		if (i == 0) {
+			ref = LAST_OUTCOME;
+			refn = LAST_RECORDS;
+		} else if (LAST_OUTCOME != ref) {
+			char key[96];
+
+			snprintf(key, sizeof(key), "C04:outcome-depends-on-read-segmentation:%s", CHN[i]);
+			viol("C04", key, "the same byte stream read in %s chunks gave a different outcome than with maximal reads (bytes sent / state sequence / table contents digest %016llx vs %016llx, %lu vs %lu records)",
+			     CHN[i], (unsigned long long)LAST_OUTCOME, (unsigned long long)ref, LAST_RECORDS, refn);
+		}
+	}
+	nontrivial(hmix(ref, (uint64_t)refn));
+	if (want_sample())
+		sample("{\"shape\":%ld,\"fuzz_seed\":\"%016llx\",\"records_in_tables_afterwards\":%lu,\"outcome_digest\":\"%016llx\"}", c % 4,
+		       (unsigned long long)sc.cfg.fuzz_seed, refn, (unsigned long long)ref);
+}
+
 /* rtr_init must reject exactly the out-of-range interval triples */
 static void intervals_init_case(long c)
 {
@@ -680,7 +950,11 @@ int main(int argc, char **argv)
 			gen_intervals(&sc, &r, c);
 		else if (!strcmp(mode, "reload"))
 			gen_reload(&sc, &r, c);
-		else if (!strcmp(mode, "allocsync")) {
+		else if (!strcmp(mode, "fuzz")) {
+			CNT("sim/scenarios");
+			run_fuzz_case(&r, c, seed);
+			continue;
+		} else if (!strcmp(mode, "allocsync")) {
 			ALLOC_MODE = true;
 			SIM_ALLOC_PAUSE = &AM.paused;
 			gen_allocsync(&sc, &r, c, seed);
